@@ -411,6 +411,10 @@ func ifs(c bool, a, b string) string {
 
 func (f *Frame) specEnv(cur *State, at *ssa.BasicBlock, atIdx int, phiSubst map[*ssa.Phi]T, li *loopInfo) *SpecEnv {
 	e := &SpecEnv{g: f.g, cur: cur, old: f.top.entryOr(f), vars: map[string]T{}, fr: f}
+	if cur != nil && cur.cs != nil && f.top.fc != nil && f.top.fc.Opts["old"] == "cs" {
+		// old() is the state found when the lock was acquired on the path that leads here
+		e.old = cur.cs
+	}
 	if f.fn.Pkg != nil {
 		e.pkg = f.fn.Pkg.Pkg
 	} else if p := f.fn.Parent(); p != nil {
@@ -745,6 +749,33 @@ func (f *Frame) merge(edges []inEdge, label string) (*State, string) {
 			g.assert(sImp(e.cond, sEq(n, e.st.next)))
 		}
 		st.next = n
+	}
+	// `old=cs` snapshots: the same on every edge, or merged like the states themselves
+	{
+		sameCS := true
+		for _, e := range edges[1:] {
+			if e.st.cs != edges[0].st.cs {
+				sameCS = false
+			}
+		}
+		if sameCS {
+			st.cs = edges[0].st.cs
+		} else if f.top.entry != nil {
+			var ce []inEdge
+			for _, e := range edges {
+				c := e.st.cs
+				if c == nil {
+					c = f.top.entry
+				}
+				cc := c.clone()
+				cc.cs = nil
+				ce = append(ce, inEdge{e.cond, cc})
+			}
+			m, _ := f.merge(ce, label+":cs")
+			m.cs = nil
+			m.next = f.top.entry.next
+			st.cs = m
+		}
 	}
 	// lock set: intersection
 	for k := range edges[0].st.held {
